@@ -294,3 +294,25 @@ Proof. vm_compute. reflexivity. Qed.
 Example C11_sample_sorted_example :
   sample_ci 4 1 4 false true [1; 1; 2; 3] = SciOk (XFin 1) (XFin 3) [1; 1; 2; 3].
 Proof. vm_compute. reflexivity. Qed.
+
+Example C11_normal_hyps_example :
+  (* the hypotheses of C11_normal_conf_ge_c and C11_normal_orders hold for the ramp CDF (proved
+     non-decreasing: ramp_mono) at c = 2/5, l1 = 45.7, r1 = 54.3, mu = 50, n = 100 *)
+  ramp (457 # 10) <= qci_alpha (2 # 5) /\ 1 - qci_alpha (2 # 5) <= ramp (543 # 10) /\
+  (457 # 10) + (543 # 10) == 2 * 50 /\ (2 # 5) <= r_conf (qci_normal (band ramp) 100 (2 # 5) (457 # 10) (543 # 10)).
+Proof. vm_compute. repeat split; discriminate. Qed.
+
+Example C11_comparator_window_example :
+  (* n = 25, q = 1/2 (e = 1) is outside the float-exact regime: the window 2^-40 is on.  (n+1) q = 13 is
+     an integer, so the float mode may come out as 12 or 13 and the tie P(12) = P(13) may or may not be
+     seen: for c = 1/10 the set has three members; the model outcome [12, 13), Ambiguous, mass
+     5200300/2^25, is one of them *)
+  let Pw := scaled_pmf 25 (binom_weights 25 1 1) in
+  match qci_graph Pw ieps_border 25 (mode_candidates 25 (1 # 2) false) with
+  | Some g => let outs := map (fun r => (r_lo r, r_hi r, r_conf r, r_amb r)) (small_outs Pw 25 g 1 false (1 # 10)) in
+              length outs = 3%nat /\ In (12%Z, 13%Z, 5200300 # 1, true) outs
+  | None => False
+  end /\
+  option_map (fun r => (r_lo r, r_hi r, Qred (r_conf r), r_amb r))
+             (qci_small (binom_pmf_i 25 (1 # 2)) 25 (mode_x 25 (1 # 2)) (1 # 10)) = Some (12%Z, 13%Z, 1300075 # 8388608, true).
+Proof. vm_compute. split; [split; [reflexivity | left; reflexivity] | reflexivity]. Qed.
